@@ -291,7 +291,48 @@ fn run_case_inner(ctx: &mut Ctx, c: &Case) {
     let env = crate::core::Env::empty();
     match (nbe.eval(&cp, &env), nbe.eval(&cq, &env)) {
         (Ok(a), Ok(b)) => match nbe.conv(&a, &b) {
-            Ok(true) => ctx.count("solutions-make-terms-equal"),
+            Ok(true) => {
+                ctx.count("solutions-make-terms-equal");
+                // A sound result stays an equality under every further instantiation of the holes
+                // that are still open: give each of them the innermost variable of the scope it
+                // was written in (a literal where that scope is empty) and compare again.
+                let mut assigned = 0;
+                for (id, cell) in &cells {
+                    if cell.borrow().is_some() {
+                        continue;
+                    }
+                    let Some(info) = c.holes.iter().find(|h| h.id == *id) else { continue };
+                    let value = if info.home_depth + c.nctx > 0 {
+                        Term { source_range: None, variant: Variant::Variable("inst", 0) }
+                    } else {
+                        Term { source_range: None, variant: Variant::IntegerLiteral(424_242.into()) }
+                    };
+                    *cell.borrow_mut() = Some(value);
+                    assigned += 1;
+                }
+                if assigned > 0 {
+                    let mut m2 = Mirror::with_ids(&known);
+                    let (pe2, qe2) = (m2.go(&p), m2.go(&q));
+                    let mut conv2 = crate::core::Conv::new();
+                    let mut stack2: Vec<u32> = (0..c.nctx).map(|i| conv2.fresh(&format!("ctx{i}"))).collect();
+                    if let (Ok(a2), Ok(b2)) = (conv2.go(&pe2, &mut stack2), conv2.go(&qe2, &mut stack2)) {
+                        let nbe2 = Nbe::new(NBE_FUEL);
+                        if let (Ok(x), Ok(y)) = (nbe2.eval(&a2, &env), nbe2.eval(&b2, &env)) {
+                            match nbe2.conv(&x, &y) {
+                                Ok(true) => ctx.count("instantiations-keep-terms-equal"),
+                                Ok(false) => {
+                                    let key = if hooks.open_unresolved > 0 || hooks.shift_unresolved_below_cutoff > 0 { D3_KEY.to_owned() } else { "instantiation-breaks-equality".to_owned() };
+                                    viol(ctx, &key, &format!("unify returned true, but once the remaining holes are given the innermost variable of their own scope the terms become {} and {}", clip(&pe2.zonk().show(), 400), clip(&qe2.zonk().show(), 400)), c);
+                                }
+                                Err(_) => ctx.inconclusive("reference-fuel"),
+                            }
+                        }
+                    } else {
+                        let key = if hooks.open_unresolved > 0 || hooks.shift_unresolved_below_cutoff > 0 { D3_KEY.to_owned() } else { "instantiation-ill-scoped".to_owned() };
+                        viol(ctx, &key, "after instantiating the remaining holes with variables of their own scope a term is ill scoped", c);
+                    }
+                }
+            }
             Ok(false) => {
                 let key = if hooks.open_unresolved > 0 || hooks.shift_unresolved_below_cutoff > 0 { D3_KEY.to_owned() } else { "solution-does-not-equate".to_owned() };
                 viol(ctx, &key, &format!("unify returned true but with the recorded solutions the terms are {} and {}, which are not definitionally equal", clip(&pe.zonk().show(), 400), clip(&qe.zonk().show(), 400)), c);
@@ -445,6 +486,9 @@ fn handmade(idx: u64) -> Option<Case> {
         20 => c(lam(h(0, 1)), lam(lam(h(1, 1))), vec![hi(0, 0), hi(1, 1)], 0, "hole-vs-binder-with-inner-hole"),
         21 => c(h(0, 0), lam(h(1, 1)), vec![hi(0, 0), hi(1, 0)], 0, "hole-vs-binder-with-outer-hole"),
         22 => c(h(0, 0), lam(h(1, 0)), vec![hi(0, 0), hi(1, 1)], 0, "hole-vs-binder-with-inner-hole"),
+        // ?a written outside x, against a binder whose hole lives inside x but outside y
+        23 => c(lam(h(0, 1)), lam(lam(h(1, 1))), vec![hi(0, 0), hi(1, 1)], 0, "hole-would-leave-its-scope"),
+        24 => c(lam(lam(h(0, 1))), lam(lam(lam(h(1, 1)))), vec![hi(0, 1), hi(1, 2)], 0, "hole-would-leave-its-scope"),
         _ => None,
     }
 }
@@ -455,7 +499,7 @@ impl Prop for C12P {
     }
     fn plan(&self, tier: Tier, _seed: u64) -> Plan {
         let mut p = Plan::new(
-            vec![sec("handmade-configurations", 23), sec("punched-terms", tier.pick(20_000, 400_000)), sec("unrelated-pairs", tier.pick(4_000, 80_000))],
+            vec![sec("handmade-configurations", 25), sec("punched-terms", tier.pick(20_000, 400_000)), sec("unrelated-pairs", tier.pick(4_000, 80_000))],
             "1-4 holes (fresh or shared cells, shift 0..3 bounded by the binder depth) punched at arbitrary positions into hole-free well-typed terms from the typed generator, unified against the original, a beta-expanded and a definition-wrapped variant, in both argument orders; pairs of unrelated terms; hand-made occurs-check, scope-escape and shared-cell configurations with and without context parameters; after every successful call the cells are inspected for cycles, scope and consistency; non-trivial = distinct pair on which unify succeeded",
         );
         p.assumptions = vec![
@@ -497,4 +541,24 @@ impl Prop for C12P {
             _ => {}
         }
     }
+}
+
+// Miri workload: the hand-made configurations plus holes punched into small hole-free terms
+// (no type checking involved, so it stays cheap under the interpreter). An Rc cycle left behind
+// by a missing occurs check shows up as a leak report.
+pub fn miri_cases(ctx: &mut Ctx, seed: u64, shard: u64, nshards: u64, count: u64) -> u64 {
+    for i in 0..count {
+        let idx = shard + i * nshards;
+        if let Some(c) = handmade(idx % 25) {
+            run_case_inner(ctx, &c);
+        }
+        let mut r = Rng::for_case(seed, 79, idx);
+        let mut budget = 6 + r.usize(10);
+        let t = crate::props::c11::random_db_term(&mut r, 4, &mut budget, 0);
+        if crate::emut::max_free(&t, 0).is_none() {
+            let c = punched_case(&mut r, &t, idx);
+            run_case_inner(ctx, &c);
+        }
+    }
+    ctx.violations
 }
